@@ -147,12 +147,17 @@ def run(tier, seed):
     a1 = merge_all(par.pmap(_work_strings, tasks))
     t1, _ = steps.start_texts(tier, "expr")
     t2, _ = steps.start_texts(tier, "eqn")
-    texts = list(dict.fromkeys(t1 + t2))
+    mag0 = X.magnitude_texts_static()
+    mag1 = X.magnitude_texts_fold()
+    texts = list(dict.fromkeys(mag0 + mag1 + t1 + t2))
     if tier == "thorough":
         texts += X.uniform(5, leaves=["2", "-3", "x"], unary=True)
     _TEXTS[:] = texts
     n = len(texts)
-    tt = [(i, min(i + 300, n), depth) for i in range(0, n, 300)]
+    n0, n1 = len(mag0), len(mag0) + len(mag1)
+    assert texts[:n1] == mag0 + mag1
+    tt = [(i, min(i + 40, n0), 0) for i in range(0, n0, 40)] + [(i, min(i + 40, n1), 1) for i in range(n0, n1, 40)]
+    tt += [(i, min(i + 300, n), depth) for i in range(n1, n, 300)]
     k = seed % len(tt)
     tt = tt[k:] + tt[:k]
     a2 = merge_all(par.pmap(_work_texts, tt))
